@@ -449,6 +449,16 @@ Mark(t, el, k) == [t |-> t, el |-> el, pos |-> k]
 Wr(c, stream, m) == CASE stream = "out" -> IF cfg.cap_out THEN [c EXCEPT !.buf = Append(@, m)] ELSE [c EXCEPT !.rout = Append(@, m)]
                       [] stream = "err" -> IF cfg.cap_err THEN [c EXCEPT !.buf = Append(@, m)] ELSE [c EXCEPT !.rerr = Append(@, m)]
                       [] stream = "log" -> IF cfg.cap_log THEN [c EXCEPT !.buf = Append(@, m)] ELSE c
+\* a log record of level lv on the logger named nm is kept by the capture handler iff it reaches the configured level
+\* (--logging-level, default INFO = 20) and passes --logging-filter (RecordFilter: exact logger names; when any name is
+\* excluded only the exclusions count, otherwise a non-empty include list admits only its members)
+LogPass(lv, nm) == /\ lv >= cfg.loglvl
+                   /\ IF cfg.logexc # <<>> THEN \A i \in DOMAIN cfg.logexc : cfg.logexc[i] # nm
+                      ELSE cfg.loginc = <<>> \/ \E i \in DOMAIN cfg.loginc : cfg.loginc[i] = nm
+WrLog(c, m, lv, nm) == IF cfg.cap_log /\ LogPass(lv, nm) THEN [c EXCEPT !.buf = Append(@, m)] ELSE c
+\* every step body prints O (stdout), E (stderr) and logs D (DEBUG, logger "verif"), L (WARNING, "verif"), G (ERROR, "other")
+StepWrites(c, el, k) == WrLog(WrLog(WrLog(Wr(Wr(c, "out", Mark("O", el, k)), "err", Mark("E", el, k)),
+                                          Mark("D", el, k), 10, "verif"), Mark("L", el, k), 30, "verif"), Mark("G", el, k), 40, "other")
 StStart ==      \* find_match; undefined path; formatter.match
    /\ Top.fn = "step" /\ Top.pc = "enter"
    /\ LET el == Top.el  k == Top.i  s == Steps(el)[k] IN
@@ -478,7 +488,7 @@ StBody ==       \* match.run: converter error, or the body with its outcome
           /\ stepst' = [stepst EXCEPT ![el][k] = "error"] /\ U(<<evlog, rt, shouldSkip, ctx, cap>>)
       ELSE
           /\ evlog' = Append(evlog, StepEv(el, k, o))
-          /\ cap' = Wr(Wr(Wr(cap, "out", Mark("O", el, k)), "err", Mark("E", el, k)), "log", Mark("L", el, k))
+          /\ cap' = StepWrites(cap, el, k)
           /\ ctx' = IF s.cl_id = 0 \/ lookupFails THEN ctx
                     ELSE LET idx == IF s.cl_layer = "" THEN Len(ctx) ELSE LayerIdx(s.cl_layer) IN
                          [ctx EXCEPT ![idx].cls = Append(@, [id |-> s.cl_id, raises |-> s.cl_raises])]
